@@ -495,7 +495,7 @@ func init() {
 				outs = append(outs, c.g.OutTrue(refchain.MaxMoney))
 			}
 			last := -(n * uint64(refchain.MaxMoney)) + in/2 // 2^64 - n*MAX + in/2
-			return append(outs, c.g.OutTrue(last)) // 2^64 - n*MAX is about 3.4e14, far below MAX_MONEY
+			return append(outs, c.g.OutTrue(last))          // 2^64 - n*MAX is about 3.4e14, far below MAX_MONEY
 		})
 	})
 	reg("value/coinbase-output-above-max", "C04", []string{"bad-txns-vout-toolarge", "bad-txns-vout-negative"}, func(c *ctx) *refchain.Block {
@@ -1075,14 +1075,15 @@ func bip68InBlock(c *ctx, seq uint32, version uint32) *refchain.Block {
 // ---------------------------------------------------------------------------------------------
 
 type Config struct {
-	Testnet4 bool // testnet4 rule set (BIP94 retarget base) - implies Testnet
-	Halving  bool // coinbase-only chain across the first subsidy halving (C04 thorough only)
-	Retarget bool // coinbase-only chain across several 2016-block epochs (C05 only)
-	Name     string
-	Testnet  bool
-	Late     bool // late activation heights (all boundaries above coinbase maturity)
-	Compress bool
-	Blocks   int
+	Testnet4    bool // testnet4 rule set (BIP94 retarget base) - implies Testnet
+	HeaderFirst bool // chainsim.NodeOpts.HeaderFirst: client-style delivery
+	Halving     bool // coinbase-only chain across the first subsidy halving (C04 thorough only)
+	Retarget    bool // coinbase-only chain across several 2016-block epochs (C05 only)
+	Name        string
+	Testnet     bool
+	Late        bool // late activation heights (all boundaries above coinbase maturity)
+	Compress    bool
+	Blocks      int
 }
 
 func params(cfg Config, seed uint64) refchain.Params {
@@ -1115,7 +1116,7 @@ func Child(prop string, seed int64, tier string, cfgName string, stateFile strin
 	defer os.RemoveAll(dir)
 	p := params(cfg, uint64(seed))
 	chainsim.SetPurge(cfg.Compress && !cfg.Retarget) // the compressed-record configurations also run with the purge-unspendable option
-	s := chainsim.NewSim(run, r, p, dir, chainsim.NodeOpts{CompressUTXO: cfg.Compress})
+	s := chainsim.NewSim(run, r, p, dir, chainsim.NodeOpts{CompressUTXO: cfg.Compress, HeaderFirst: cfg.HeaderFirst})
 	defer s.Close()
 	g := s.G
 	if cfg.Retarget {
@@ -1570,6 +1571,8 @@ func Configs(tier string) []Config {
 		{Name: "late-plain", Late: true, Blocks: 150},
 		{Name: "early-compressed", Late: false, Compress: true, Blocks: 130},
 		{Name: "testnet-late", Late: true, Testnet: true, Blocks: 140},
+		// blocks handed over the way the client does it: header into the tree first, body checked on the same object
+		{Name: "late-plain-headerfirst", Late: true, HeaderFirst: true, Blocks: 150},
 	}
 	if tier == "thorough" {
 		l = append(l, Config{Name: "halving", Halving: true})
